@@ -6,6 +6,9 @@
 #[path = "../am_common.rs"]
 #[macro_use]
 mod am_common;
+#[path = "../am_blockmodel.rs"]
+mod am_blockmodel;
+use am_blockmodel::guided_search;
 use am_common::*;
 use bio_verif_harness::{bytes, Log, Rng};
 use serde_json::{json, Value};
@@ -28,6 +31,11 @@ struct Case<'a> {
     tb: &'a Tables,
     texts: &'a [Vec<u8>],
     ks: &'a [i64],
+}
+
+thread_local! {
+    /// (k, band profile) to be recorded as a `blk_profile` event of the next single-text run
+    static PROFILE: std::cell::RefCell<Option<(i64, Vec<usize>)>> = std::cell::RefCell::new(None);
 }
 
 /// TLC validates the events of one run sequentially, so the texts of one object are
@@ -84,6 +92,11 @@ fn run_one(log: &mut Log, tag: &str, c: &Case) {
         };
         if !active {
             continue;
+        }
+        if let Some((pk, prof)) = PROFILE.with(|c| c.borrow_mut().take()) {
+            // what the driver's transcription of the block machine computed (checked by TLC
+            // against BlkStep of the specification; not a call of rust-bio)
+            log.call("blk_profile", json!({"ti": 1, "k": pk}), || json!({"nb": prof.iter().map(|&x| x as i64).collect::<Vec<i64>>()}));
         }
         let mut nontrivial = false; // some threshold selected a proper, non-empty subset of the end positions
         for (ti0, &gi) in grp.iter().enumerate() {
@@ -369,7 +382,7 @@ pub fn drive(log: &mut Log) {
     //     am_common::seam_case), enumerated over block width, number of blocks, seam, k, the
     //     length of the repeated symbol run and the kind of the remaining edits. One run = one
     //     pattern with the text built for it.
-    let reps = log.opts.n(8, 16);
+    let reps = log.opts.n(3, 16);
     for &w in &[8usize, 16] {
         for blocks in 2..=3usize {
             for b in 1..blocks {
@@ -399,6 +412,27 @@ pub fn drive(log: &mut Log) {
             }
         }
     }
+
+    // (f) guided search for the rare transitions of the band-limited block machine (see
+    //     am_blockmodel::guided_search): the selected inputs are replayed into the real matcher
+    //     and judged by TLC against the edit matrix, as always; the band profile the
+    //     transcription computed is recorded next to them (`blk_profile`) and checked by TLC
+    //     against BlkStep of the specification.
+    let nsh = log.opts.nshards.max(1);
+    let quota = (log.opts.n(16, 96) as usize + nsh as usize - 1) / nsh as usize;
+    let max_patterns = log.opts.n(600, 2400) as usize; // per shard
+    let (found, used) = guided_search(&|c| Rng::new(seed, 15, c), case + 1, nsh, log.opts.shard, quota, max_patterns);
+    case += used;
+    for (_c, wt) in found {
+        for r in &wt.why {
+            log.oblige(r);
+        }
+        PROFILE.with(|cell| *cell.borrow_mut() = Some((wt.k, wt.profile.clone())));
+        let texts = vec![wt.t.clone()];
+        let ks: Vec<i64> = if wt.k > 0 { vec![wt.k - 1, wt.k, wt.k + 1] } else { vec![wt.k, wt.k + 1] };
+        run_one(log, "gs", &Case { long_impl: true, w: wt.w, p: &wt.p, tb: &none, texts: &texts, ks: &ks });
+    }
+    let _ = case;
 }
 
 fn main() {
